@@ -64,8 +64,12 @@ CHECKS = {
              "Model/ExprParse.v (generic_binary loop per binary level, parse_unary_fn per prefix level, terminal) over the "
              "regenerated ladder parses the minimally parenthesised printing of EVERY expression tree back to that tree "
              "(precedence = ladder order, left associativity); the machine is compared with expr_fn on generated trees "
-             "(printer, read-back, value) and on token soups (accept/reject and value). PARTIAL: float arithmetic and the "
-             "tokenizer regex are outside the model.",
+             "(printer, read-back, value) and on token soups (accept/reject and value). String functions "
+             "(Proofs/StringFnsProofs.v): c18_pos_is_the_first_occurrence / c18_pos_absent_means_no_occurrence / "
+             "c18_rpos_is_the_last_occurrence (first and last occurrence at or after the offset, for every needle, string and "
+             "offset), c18_explode_pieces_join_back (the pieces joined with the delimiter are the string), "
+             "c18_replace_is_split_then_join (#replace = split at the old text, join with the new). PARTIAL: float arithmetic "
+             "and the tokenizer regex are outside the model.",
         note=TRUST + "translators ladder.py/locales.py trusted (fail-closed); floats, urllib quoting, non-ASCII case mapping "
              "not modelled; negative operands of mod and inexact division are outside the reference evaluator.",
         ref="DESIGN.md section 4 C18"),
